@@ -161,7 +161,8 @@ def parseFont (ws : List String) : Option RawFontDict := do
       | [a, b, c, d, e, f] => some ((a, b, c, d, e, f), ws)
       | _ => none)
   if !ws.isEmpty then none else
-  some { isType3 := sub == "Type3", baseFont := baseFont, enc := enc, toUnicode := tu, firstChar := fc,
+  let isT3 ← simpleClass (if sub == "absent" then none else some sub)   -- `get_font` dispatch (composite: not C06)
+  some { isType3 := isT3, baseFont := baseFont, enc := enc, toUnicode := tu, firstChar := fc,
          widths := widths, desc := desc, fontMatrix := fm }
 
 def codes256 : List Int := (List.range 256).map Int.ofNat
